@@ -2,4 +2,5 @@ import PsModel.Util.Sexp
 import PsModel.Util.Hex
 import PsModel.Props.C01
 import PsModel.Props.C02
+import PsModel.Props.C03
 import PsModel.Props.C19
